@@ -385,6 +385,59 @@ where
         };
         mem_check("honest", &honest, false);
         mem_check("sibling-circuit", &sib, true);
+        // Fields serialisation DOES carry, altered on the in-memory object (not through a
+        // deserialiser, which the JSON alterations below go through): the loader must hand back
+        // what was stored, so the verdict after a round trip equals the in-memory verdict.
+        let mut mem_fields = |kind: &'static str, p: &BatchStarkProof<S::SC>, invalid: bool| {
+            let edits: [(&'static str, fn(&mut Vec<usize>)); 5] = [
+                ("in-memory:stark_common.matrix_to_instance/swap(0,1)", |a| {
+                    if a.len() >= 2 {
+                        a.swap(0, 1)
+                    }
+                }),
+                ("in-memory:stark_common.matrix_to_instance/drop-last", |a| {
+                    a.pop();
+                }),
+                ("in-memory:stark_common.matrix_to_instance/repeat-first", |a| {
+                    if let Some(x) = a.first().copied() {
+                        for y in a.iter_mut() {
+                            *y = x
+                        }
+                    }
+                }),
+                ("in-memory:stark_common.matrix_to_instance/reverse", |a| a.reverse()),
+                ("in-memory:stark_common.matrix_to_instance/push(0)", |a| a.push(0)),
+            ];
+            for (codec, edit) in edits {
+                let finding = match <S::SC as ScOps>::postcard_roundtrip(p) {
+                    Err(e) => Some(format!("roundtrip-failed: {e}")),
+                    Ok(mut q) => {
+                        let Some(g) = q.stark_common.preprocessed.as_mut() else { continue };
+                        let before = g.matrix_to_instance.clone();
+                        edit(&mut g.matrix_to_instance);
+                        if g.matrix_to_instance == before {
+                            continue;
+                        }
+                        let v_mem = guarded(|| S::verify(&prover, &q).is_ok()).unwrap_or(false);
+                        let v_rt = match <S::SC as ScOps>::postcard_roundtrip(&q) {
+                            Ok(q2) => guarded(|| S::verify(&prover, &q2).is_ok()).unwrap_or(false),
+                            Err(_) => false,
+                        };
+                        let bound = <S::SC as ScOps>::commitment(&q.stark_common) == pinned;
+                        if invalid && v_mem && bound {
+                            Some("invalid-proof-accepted: altered in-memory preprocessed map".to_string())
+                        } else if v_mem != v_rt {
+                            Some(format!("roundtrip-verdict-changed: {v_mem} -> {v_rt}"))
+                        } else {
+                            None
+                        }
+                    }
+                };
+                native_roundtrips.push((kind, codec, finding));
+            }
+        };
+        mem_fields("honest", &honest, false);
+        mem_fields("sibling-circuit", &sib, true);
         // a proof of a forged trace made by a prover that stripped the lookup contexts from its
         // prover data (the cross-table bus is then not part of what was proven)
         let mut stripped = a.cpd;
